@@ -72,3 +72,5 @@ def run(repo, res, tier):
     # the lexer's character step: total at the ends of the text, keeps every character that is not grammar white space
     from .. import lexsim as _ls
     _ls.rule_comment_kind(repo, res)
+    # no IndexError from looking at the first / last character of a text that may be empty
+    parserules.rule_idx_guard(repo, res)
